@@ -13,7 +13,7 @@ import sessioncheck
 import world
 
 INFO = {
-    'proof_files': ['Proofs/RunnerProofs.v', 'Proofs/SessionProofs.v', 'Proofs/Utf8ProofsA.v', 'Proofs/Utf8ProofsB.v'],
+    'proof_files': ['Proofs/RunnerProofs.v', 'Proofs/SessionProofs.v', 'Proofs/Utf8ProofsA.v', 'Proofs/Utf8ProofsB.v', 'Proofs/NewlinesProofs.v'],
     'assumptions': [
         'PARTIAL: what a Gallina model can carry is proved (the program is started with argv verbatim, WAYLAND_DEBUG=1, LD_LIBRARY_PATH rule, other variables untouched, stdout inherited; line reassembly is independent of write chunking and loses no byte; the display is the same fold of the same lines in all three modes; exit status = child\'s once the prompt loop ended)',
         'runtime behaviour outside the model, covered by exploration only: CPython TextIOWrapper line reassembly on a real pipe, OS pipe buffering, thread scheduling/join in run_program, process exit codes, real stdout buffering - exercised by running main.py as a process in the three modes on generated schedules',
@@ -41,7 +41,10 @@ def make_stream(rnd):
         if it[0] == 'msg':
             lines.append(world.render_line(it[2], d))
         else:
-            lines.append(it[1].replace('\r', ''))
+            lines.append(it[1])
+        if rnd.random() < 0.15:
+            # program chatter with carriage returns: a progress line rewritten in place, a CRLF line end
+            lines.append(rnd.choice(['loading 10%\rloading 55%', 'dos line\r', '\rleading', 'a\r\rb', 'spinner |\rspinner /\rspinner -']))
     text = '\n'.join(lines)
     if rnd.random() < 0.7:
         text += '\n'
@@ -71,7 +74,7 @@ def chunkings(rnd, text):
     return parts
 
 
-def run_mode(mode, text, sched, workdir, extra_args=(), parent_env=None, lib_dir=None):
+def run_mode(mode, text, sched, workdir, extra_args=(), parent_env=None, lib_dir=None, brk=None):
     env = dict(os.environ, PYTHONPATH=common.REPO, WDV_KEEP='kept')
     env.pop('WAYLAND_DEBUG', None)
     env.pop('LD_LIBRARY_PATH', None)
@@ -82,9 +85,9 @@ def run_mode(mode, text, sched, workdir, extra_args=(), parent_env=None, lib_dir
     if mode == 'load':
         p = os.path.join(workdir, 'log.txt')
         open(p, 'w', encoding='utf-8').write(text)
-        r = subprocess.run([sys.executable, '-B', main, '-C', '-l', p], input='q\n', capture_output=True, text=True, env=env, timeout=120)
+        r = subprocess.run([sys.executable, '-B', main, '-C'] + (['-b', brk] if brk else []) + ['-l', p], input='q\n', capture_output=True, text=True, env=env, timeout=120)
     elif mode == 'pipe':
-        r = subprocess.run([sys.executable, '-B', main, '-C', '-p'], input=text, capture_output=True, text=True, env=env, timeout=120)
+        r = subprocess.run([sys.executable, '-B', main, '-C'] + (['-b', brk] if brk else []) + ['-p'], input=text, capture_output=True, text=True, env=env, timeout=120)
     else:
         sp = os.path.join(workdir, 'sched.json')
         json.dump(sched, open(sp, 'w'))
@@ -93,7 +96,7 @@ def run_mode(mode, text, sched, workdir, extra_args=(), parent_env=None, lib_dir
         env['WDV_SCHED'] = sp
         env['WDV_DUMP'] = os.path.join(workdir, 'dump.json')
         pre = ['--libwayland', lib_dir] if lib_dir else []
-        r = subprocess.run([sys.executable, '-B', main, '-C'] + pre + ['-r', sys.executable, hp] + list(extra_args), input='q\n', capture_output=True, text=True, env=env, timeout=120)
+        r = subprocess.run([sys.executable, '-B', main, '-C'] + (['-b', brk] if brk else []) + pre + ['-r', sys.executable, hp] + list(extra_args), input='q\n', capture_output=True, text=True, env=env, timeout=120)
     return r
 
 
@@ -140,16 +143,18 @@ def run(res):
                 'LD_LIBRARY_PATH': rnd.choice([None, None, '/opt/wdv/lib', '/a:/b']),
                 'WDV_OTHER': rnd.choice([None, 'x y', ''])}
         lib_dir = rnd.choice([None, None, libdir])
+        # a breakpoint matcher: its `Stopped at` notices are part of what every mode shows
+        brk = rnd.choice([None, None, 'wl_registry', '.done', 'wl_display', '.sync, .get_registry'])
         try:
-            rl = run_mode('load', text, sched, work)
-            rp = run_mode('pipe', text, sched, work)
-            rr = run_mode('run', text, sched, work, extra, penv, lib_dir)
+            rl = run_mode('load', text, sched, work, brk=brk)
+            rp = run_mode('pipe', text, sched, work, brk=brk)
+            rr = run_mode('run', text, sched, work, extra, penv, lib_dir, brk=brk)
         except subprocess.TimeoutExpired as e:
             res.disagree('a mode hung', dict(text=text, sched=sched), None, repr(e), sig={'category': 'timeout'})
             continue
         res.evaluations += 3
         dl, dp, dr = display(rl.stdout), display(rp.stdout), display(rr.stdout)
-        case = dict(text=text, sched=sched, extra=extra, parent_env=penv, lib_dir=lib_dir)
+        case = dict(text=text, sched=sched, extra=extra, parent_env=penv, lib_dir=lib_dir, brk=brk)
         if not (dl == dp == dr):
             res.disagree('file, pipe and run mode display different things', case, None,
                          {'load': dl[-6:], 'pipe': dp[-6:], 'run': dr[-6:], 'stderr_run': rr.stderr[-400:]},
@@ -181,6 +186,7 @@ def run(res):
     res.sample({'stream_head': text[:200], 'chunks': len(sched['chunks']), 'status': status})
     stdin_eof(res, work)
     utf8_correspondence(res)
+    newline_correspondence(res)
     res.rule = ('generated streams (messages + chatter, with and without final newline) written by a helper in 1..n chunks with delays (incl. byte-by-byte and mid-line splits), '
                 'exit statuses %s, forwarded words that look like our options, wayland-debug itself started with WAYLAND_DEBUG unset/1/0/empty/server/client, with and without LD_LIBRARY_PATH and --libwayland DIR; each run under -l, -p and -r; non-trivial = all three modes agree and run mode is transparent; distinct by (stream, chunking)'
                 % ('0,1,2,7,255' if res.tier == 'quick' else '0..255'))
@@ -205,6 +211,25 @@ def utf8_correspondence(res):
         res.extra['utf8_model_vs_cpython'] = tail.strip().split('\n')[-1]
     else:
         res.disagree('the UTF-8 decoder model differs from CPython', None, None, tail, sig={'category': 'utf8-model'}, theorem='C13_decode_chunks_concat')
+
+
+def newline_correspondence(res):
+    """Model/Newlines.v (universal newline translation behind the UTF-8 decoder, incremental) against CPython's io.TextIOWrapper /
+    IncrementalNewlineDecoder: whole text, lines, per-call output and pending-CR state, on chunked bytes rich in CR and LF."""
+    n = 1000 if res.tier == 'quick' else 15000
+    here = os.path.join(os.path.dirname(os.path.dirname(os.path.abspath(__file__))), 'newline_corr.py')
+    try:
+        p = subprocess.run([sys.executable, '-B', here, '--n', str(n), '--seed', str(res.seed)], capture_output=True, text=True, timeout=1800,
+                           env=dict(os.environ, PYTHONPATH=common.REPO + ':' + os.path.dirname(os.path.dirname(os.path.abspath(__file__)))))
+    except Exception as e:
+        res.disagree('newline correspondence could not run', None, None, repr(e), sig={'category': 'harness'})
+        return
+    tail = (p.stdout + p.stderr)[-1500:]
+    if p.returncode == 0:
+        res.evaluations += n
+        res.extra['newline_model_vs_cpython'] = tail.strip().split('\n')[-1]
+    else:
+        res.disagree('the universal-newline model differs from CPython', None, None, tail, sig={'category': 'newline-model'}, theorem='C13_read_text_chunks_concat')
 
 
 def stdin_eof(res, work):
